@@ -154,8 +154,9 @@ def check_intervals(run, db):
                     if c:
                         facts.append(c)
             elif s.ret not in ('false', None) and s.ret_term is not None:
-                for a in c16._cmp_atoms(s.ret_term):
-                    c = linear.compare(a, True, roles)
+                # what the returned expression being true implies: conjunctions split, negations pushed through
+                for a, tk in fwd.split_condition(s.ret_term, True):
+                    c = linear.compare(a, tk, roles)
                     if c:
                         facts.append(c)
                 for ct, tk in s.cond_terms:
